@@ -171,7 +171,7 @@ func (e *c17Env) sub() *srv.HttpSub {
 		e.logf("consumer join failed: %v", err)
 		return nil
 	}
-	e.s.Notify.WaitSessionFrom(3*time.Second, from, "sub_start", x.Conn.LocalAddr().String())
+	e.s.Notify.WaitSessionFrom(3*time.Second, from, "sub_start", srv.Key(x.Conn))
 	e.logf("consumer joined")
 	return x
 }
@@ -181,7 +181,7 @@ func (e *c17Env) unsub(x *srv.HttpSub) {
 		return
 	}
 	from := e.s.Notify.Len()
-	local := x.Conn.LocalAddr().String()
+	local := srv.Key(x.Conn)
 	x.Close()
 	e.s.Notify.WaitSessionFrom(3*time.Second, from, "sub_stop", local)
 	e.logf("consumer left")
@@ -623,7 +623,7 @@ func c17PullOvertaken(c *fw.Ctx, i int, static bool) {
 		return
 	}
 	defer p.Close()
-	paddr := p.RC.Conn.LocalAddr().String()
+	paddr := srv.Key(p.RC.Conn)
 	if _, ok := e.s.Notify.WaitSessionFrom(3*time.Second, from, "pub_start", paddr); !ok {
 		c.Inconclusive("the publisher was not accepted while the pull attempt was in flight\n%s", e.trace())
 		return
